@@ -232,6 +232,13 @@ class Table:
             return BoundLib("tbl.table.set_axis", self)
         raise ev.err(f"table attribute {name}", node, mod)
 
+    def sym_subscript(self, ev, idx, n, mod):
+        """df[key]: the COLUMN whose label equals key (a look-up by label, never by position)"""
+        if is_sym(idx) and not isinstance(idx, bool):
+            ln = Line1(self.var, self.columns, sp.Function("POSITION_OF_LABEL")(labels(self.columns), as_sym(idx)), self.index)
+            return SeriesV(ln, Axis(self.index, self.parsed["index"]), None)
+        raise ev.err("subscript of the table that is not one column label", n, mod)
+
     def with_axis(self, ev, which, v, node=None, mod=None):
         """the table with its `which` ('index' / 'columns') labels replaced (a new table, as DataFrame.set_axis returns)"""
         t = Table(self.var, self.index, self.columns, dict(self.parsed))
